@@ -170,6 +170,16 @@ class Check:
             'technique': self.technique,
             'all_obligations': [{'o': o['obligation'], 'r': o['result'], 'b': o['backend']} for o in self.obligations],
         }
+        # mechanical scan of the sidecar for assumption-introducing constructs (DESIGN 2.8): listed, never hidden
+        try:
+            cpath = os.path.join(VERIF, 'contracts', self.pid.lower() + '.py')
+            txt = open(cpath).read() if os.path.exists(cpath) else ''
+            cov['assumption_scan'] = {'sidecar': 'contracts/%s.py' % self.pid.lower(),
+                                      'run.assume': txt.count('.assume('), 'run.axiom': txt.count('.axiom('),
+                                      'engine.MODELS (assumed callee contracts)': txt.count('MODELS[') + txt.count('@model('),
+                                      'chk.assume (declared assumptions)': txt.count('chk.assume('), 'chk.trust': txt.count('chk.trust(')}
+        except OSError:
+            pass
         cov.update(self.extra)
         ev = {'property_id': self.pid, 'tier': self.tier, 'seed': self.seed, 'level': level,
               'coverage': cov, 'assumptions': self.assumptions, 'wall_s': round(time.time() - self.t0, 3),
